@@ -36,6 +36,8 @@ import Fcgi.Props.C07ScriptFuel
 import Fcgi.Props.C07Echo
 import Fcgi.Props.C07NoFuel
 import Fcgi.Props.C07Echo2
+import Fcgi.Props.C07NoFuel2
+import Fcgi.Props.C07Echo3
 import Fcgi.Props.C08
 import Fcgi.Props.C08Inv
 import Fcgi.Props.C08Replies
@@ -45,6 +47,7 @@ import Fcgi.Props.C09
 import Fcgi.Props.C09E2E
 import Fcgi.Props.C09Gate
 import Fcgi.Props.C09Gate2
+import Fcgi.Props.C09Gate3
 import Fcgi.Props.C10
 import Fcgi.Props.C10Clone
 import Fcgi.Props.C10Clone2
@@ -58,6 +61,7 @@ import Fcgi.Props.C11Filter4
 import Fcgi.Props.C11Filter4Chain
 import Fcgi.Props.E2EUnbounded
 import Fcgi.Props.C11FilterAnysize
+import Fcgi.Props.C11NoFuel
 import Fcgi.Props.C12
 import Fcgi.Props.C12Inv
 import Fcgi.Props.C12Wf
@@ -73,6 +77,7 @@ import Fcgi.Props.C12E2E9
 import Fcgi.Props.C12Fuel
 import Fcgi.Props.C12Unbounded
 import Fcgi.Props.C12Chain
+import Fcgi.Props.C12NoFuel
 import Fcgi.Props.C13
 import Fcgi.Props.C13Conn
 import Fcgi.Props.C14b
@@ -83,6 +88,7 @@ import Fcgi.Props.C14E2E
 import Fcgi.Props.C14E2E2
 import Fcgi.Props.C14E2E3
 import Fcgi.Props.C14Unbounded
+import Fcgi.Props.C14NoFuel
 import Fcgi.Props.C15
 import Fcgi.Props.C16
 import Fcgi.Props.C17
@@ -90,11 +96,6 @@ import Fcgi.Props.C18
 import Fcgi.Props.C18Held
 import Fcgi.Props.C19
 import Fcgi.Props.C20
-import Fcgi.Props.C09Gate3
-import Fcgi.Props.C11NoFuel
-import Fcgi.Props.C14NoFuel
-import Fcgi.Props.C12NoFuel
-import Fcgi.Props.C07NoFuel2
 
 /-!
 # Headline — one checked statement per property
@@ -124,7 +125,7 @@ only (named per clause); single request unless a clause says otherwise.  The end
 handler fuel pays for what is left of the handler script (`Model/RunLoop.lean`, `Props/C07ScriptFuel.lean`: the fuel
 guard is unreachable for every script), so no statement about the model NEEDS a fuel hypothesis any more.  `hhf` is
 GONE from the core family (C07 Clauses 1–4, `Props/C07NoFuel.lean`: single request of every role, k keep-alive
-requests) and from the echo Responder (C07 Clauses 21, 23) and the Filter gate theorems (C09 Clauses 11–15).  It is also gone from C07 Clause 6 (`C07NoFuel2`), C11 Clause 5
+requests) and from the echo Responder (C07 Clauses 21, 23, 25, 26) and the Filter gate theorems (C09 Clauses 11–17).  It is also gone from C07 Clause 6 (`C07NoFuel2`), C11 Clause 5
 (`C11NoFuel`), C12 Clauses 1, 5, 9, 10 (`C12NoFuel`: Responder EOF / failure at any offset, write error, read error at
 any index) and C14 Clauses 1–2 (`C14NoFuel`).  It REMAINS, as an artefact of the proofs only (removable by the recipe of
 `Proofs/E2ENoFuel.lean`), in: C07 Clause 8 (`wcost |data| + 8 ≤ 1000`), 10–12 (`2·n + …`: the number of
@@ -1506,7 +1507,7 @@ end Fcgi.Headline
   `Props/C07Writers.lean` … `C07Writers4.lean`; 17–18, 20: a Filter), the echo Responder — writes
   interleaved with reads (Clauses 21–22, `Props/C07Echo.lean`).  All e2e clauses are size-free: no bound on
   the wire length or the buffer.  MODEL FUEL: since the model's handler fuel pays for what is left of the
-  handler script (`Props/C07ScriptFuel.lean`), Clauses 1–4 (`Props/C07NoFuel.lean`), 6 and 21–24 have NO
+  handler script (`Props/C07ScriptFuel.lean`), Clauses 1–4 (`Props/C07NoFuel.lean`), 6 and 21–26 have NO
   fuel hypothesis; in the other clauses `hhf` is still in the statement but is now an artefact of their
   PROOFS only (removable by the recipe of `Proofs/E2ENoFuel.lean`): `wcost |data| + c ≤ 1000` (Clause 8;
   Clause 6 is the `_nofuel` version of `Props/C07NoFuel2.lean`), the number of `fill_buf`/`consume` rounds
@@ -1517,7 +1518,11 @@ end Fcgi.Headline
   WITHOUT `hmore` (`E2E.stepConn_fs`).  Clause 21: reads of ONE byte (`m = 1`: the unrolled script is then
   independent of the transport's chunking) and `hquiet` (the noise inside Stdin owes no reply); Clauses
   23–24 (`Props/C07Echo2.lean`, ledger `Proofs/E2ELedger`) remove `hquiet`: the log is then an interleaving
-  of replies and handler records (not stated: that no reply RECORD is cut by a handler record).
+  of replies and handler records (not stated: that no reply RECORD is cut by a handler record).  Clauses
+  25–26 (`Props/C07Echo3.lean`) add what the reads RETURNED — the write-log conclusions of Clauses 21 and 23
+  alone would also hold if every `read(1)` returned garbage, because the model's scripts carry their write
+  data —: the read events `r=1:<b>` (one per content byte, in order) and `r=0:-` are an in-order sublist of
+  the trace (not proved: that no other `r=` event occurs).
 
 **The conjuncts of `C07_headline`.**
 1. `C07E.single_request_e2e_nofuel` — Responder, canonical handler, any benign transport, ANY wire length:
@@ -1564,6 +1569,10 @@ end Fcgi.Headline
    (one Stdout record per content byte, then the epilogue)
 24. `C07W.ilv_segs` — … `Ilv w a h`: `w` is a concatenation of segments whose reply pieces concatenate to
    `a` and whose handler pieces concatenate to `h`, each in order
+25. `C07W.echo_responder_e2e_noise_reads` — the same run, AND what the reads returned: the trace contains,
+   as an in-order SUBLIST, the events `r=1:<b>` for each content byte `b`, then `r=0:-` — the i-th `read(1)`
+   returned the byte the i-th `write_all` writes (not stated: that no OTHER `r=` event occurs)
+26. `C07W.echo_responder_e2e_reads` — … the same for the reply-free case (`hquiet`)
 
 **Modelling assumptions (obligations.json).**
 * executor fairness, real sockets and wakers beyond the harness' flag/counting wakers are outside the model
@@ -1576,8 +1585,9 @@ end Fcgi.Headline
 
 **Not proved as theorems — carried by the differential run + oracle, or trusted.**
 * handlers outside those families (more than two writers, writers kept alive at return; writes interleaved
-  with reads only PARTIALLY: the echo Responder of Clauses 21–22 with 1-byte reads and reply-free Stdin
-  noise) and transports with faults (C12) are enumerated by the differential run + oracle
+  with reads only PARTIALLY: the echo Responder of Clauses 21–26 with 1-byte reads; the read events as an
+  in-order sublist of the trace, exclusivity of `r=` events not proved) and transports with faults (C12) are
+  enumerated by the differential run + oracle
 * executor fairness, real sockets and wakers are outside the model
 
 -/
@@ -2216,6 +2226,57 @@ theorem C07Clause24_holds : C07Clause24 := by
 end Fcgi.C07W
 end
 
+section
+namespace Fcgi.C07W
+open Fcgi Fcgi.Req Fcgi.Str Fcgi.Async Fcgi.Run Fcgi.Spec Fcgi.E2E Fcgi.C07E Fcgi.C07U Fcgi.C07B
+/-- the same run, AND what the reads returned: the trace contains, as an in-order SUBLIST, the events `r=1:<b>` for each content byte `b`, then `r=0:-` — the i-th `read(1)` returned the byte the i-th `write_all` writes (not stated: that no OTHER `r=` event occurs)  (= `Fcgi.C07W.echo_responder_e2e_noise_reads`, `Props/C07Echo3.lean`) -/
+def C07Clause25 : Prop :=
+  ∀ {p : Preamble} {recs : List Rec} {content : Bytes} {srecs : List Rec}
+    {b mc : Nat} {st : ExitStatus} {more : List (List HOp × Bool)} {t : Transport} {fuel : Nat}
+    (hwf : WellFormedPreamble p recs) (hrole : p.role = 1)
+    (hpairs : ∀ q ∈ p.pairs, (NV.enc q).length ≤ alignedBufsize b)
+    (hnoise : NoiseFits (alignedBufsize b) recs)
+    (hs : StreamRecs p.id 5 content srecs) (hsn : NoiseFits (alignedBufsize b) srecs)
+    (hin : t.input = serAll recs ++ serAll srecs) (hben : Ben t) (hev : hsCount t.events = 0)
+    (hfuel : t.rd.length + t.wr.length + 1 ≤ fuel),
+    ∃ c' fin pad res,
+      runTask fuel (connS b mc t ((echoScript content st, true) :: more)) 0 none = (c', fin) ∧
+      EchoNoiseOutcome p recs content srecs pad res b mc st more t c' fin ∧
+      (echoReadEvents content).Sublist c'.env.tr.events
+
+theorem C07Clause25_holds : C07Clause25 := by
+  unfold C07Clause25
+  exact @echo_responder_e2e_noise_reads
+
+end Fcgi.C07W
+end
+
+section
+namespace Fcgi.C07W
+open Fcgi Fcgi.Req Fcgi.Str Fcgi.Async Fcgi.Run Fcgi.Spec Fcgi.E2E Fcgi.C07E Fcgi.C07U Fcgi.C07B
+/-- … the same for the reply-free case (`hquiet`)  (= `Fcgi.C07W.echo_responder_e2e_reads`, `Props/C07Echo3.lean`) -/
+def C07Clause26 : Prop :=
+  ∀ {p : Preamble} {recs : List Rec} {content : Bytes} {srecs : List Rec}
+    {b mc : Nat} {st : ExitStatus} {more : List (List HOp × Bool)} {t : Transport} {fuel : Nat}
+    (hwf : WellFormedPreamble p recs) (hrole : p.role = 1)
+    (hpairs : ∀ q ∈ p.pairs, (NV.enc q).length ≤ alignedBufsize b)
+    (hnoise : NoiseFits (alignedBufsize b) recs)
+    (hs : StreamRecs p.id 5 content srecs) (hsn : NoiseFits (alignedBufsize b) srecs)
+    (hin : t.input = serAll recs ++ serAll srecs) (hben : Ben t) (hev : hsCount t.events = 0)
+    (hfuel : t.rd.length + t.wr.length + 1 ≤ fuel)
+    (hquiet : owedStream p.id 5 mc srecs = []),
+    ∃ c' fin pad res,
+      runTask fuel (connS b mc t ((echoScript content st, true) :: more)) 0 none = (c', fin) ∧
+      EchoOutcome p recs content pad res b mc st more t c' fin ∧
+      (echoReadEvents content).Sublist c'.env.tr.events
+
+theorem C07Clause26_holds : C07Clause26 := by
+  unfold C07Clause26
+  exact @echo_responder_e2e_reads
+
+end Fcgi.C07W
+end
+
 namespace Fcgi.Headline
 /-- **C07** — see the section comment above for the clause-by-clause reading. -/
 theorem C07_headline :
@@ -2242,8 +2303,10 @@ theorem C07_headline :
     Fcgi.C07W.C07Clause21 ∧
     Fcgi.C07W.C07Clause22 ∧
     Fcgi.C07W.C07Clause23 ∧
-    Fcgi.C07W.C07Clause24 :=
-  ⟨Fcgi.C07E.C07Clause1_holds, Fcgi.C07E.C07Clause2_holds, Fcgi.C07E.C07Clause3_holds, Fcgi.C07E.C07Clause4_holds, Fcgi.Headline.C07Clause5_holds, Fcgi.C07U.C07Clause6_holds, Fcgi.C07U.C07Clause7_holds, Fcgi.C07U.C07Clause8_holds, Fcgi.C07U.C07Clause9_holds, Fcgi.C07B.C07Clause10_holds, Fcgi.C07B.C07Clause11_holds, Fcgi.C07B.C07Clause12_holds, Fcgi.C07W.C07Clause13_holds, Fcgi.C07W.C07Clause14_holds, Fcgi.C07W.C07Clause15_holds, Fcgi.C07W.C07Clause16_holds, Fcgi.C07W.C07Clause17_holds, Fcgi.C07W.C07Clause18_holds, Fcgi.C07W.C07Clause19_holds, Fcgi.C07W.C07Clause20_holds, Fcgi.C07W.C07Clause21_holds, Fcgi.C07W.C07Clause22_holds, Fcgi.C07W.C07Clause23_holds, Fcgi.C07W.C07Clause24_holds⟩
+    Fcgi.C07W.C07Clause24 ∧
+    Fcgi.C07W.C07Clause25 ∧
+    Fcgi.C07W.C07Clause26 :=
+  ⟨Fcgi.C07E.C07Clause1_holds, Fcgi.C07E.C07Clause2_holds, Fcgi.C07E.C07Clause3_holds, Fcgi.C07E.C07Clause4_holds, Fcgi.Headline.C07Clause5_holds, Fcgi.C07U.C07Clause6_holds, Fcgi.C07U.C07Clause7_holds, Fcgi.C07U.C07Clause8_holds, Fcgi.C07U.C07Clause9_holds, Fcgi.C07B.C07Clause10_holds, Fcgi.C07B.C07Clause11_holds, Fcgi.C07B.C07Clause12_holds, Fcgi.C07W.C07Clause13_holds, Fcgi.C07W.C07Clause14_holds, Fcgi.C07W.C07Clause15_holds, Fcgi.C07W.C07Clause16_holds, Fcgi.C07W.C07Clause17_holds, Fcgi.C07W.C07Clause18_holds, Fcgi.C07W.C07Clause19_holds, Fcgi.C07W.C07Clause20_holds, Fcgi.C07W.C07Clause21_holds, Fcgi.C07W.C07Clause22_holds, Fcgi.C07W.C07Clause23_holds, Fcgi.C07W.C07Clause24_holds, Fcgi.C07W.C07Clause25_holds, Fcgi.C07W.C07Clause26_holds⟩
 end Fcgi.Headline
 
 
@@ -2609,7 +2672,11 @@ end Fcgi.Headline
 13. `C09G.wh_facts` — … before the gate (`WH`): no writer exists, not writeable, log = owed replies only
 14. `C09G.filter_gate_free` — the gate theorem stated WITHOUT a configuration: every conclusion in terms of
    `p recs srecs drecs mc t rest more` (`PreGate`, `GatePollFree`)
-15. `C09G.filter_gate_write_e2e` — the WHOLE run of `writeable(); open Stdout; write_all(data); return` on a
+15. `C09G.filter_gate_pinned` — `filter_gate_e2e` exporting the configuration it quantifies over (`GOK g
+   rest`, `g.recs`, `g.mc`, `g.b`, `g.hs0`, `g.more` pinned)
+16. `C09G.gate_taken` — … what `GateAt g` says for such a configuration: the bytes taken behind the preamble
+   contain the complete Stdin stream
+17. `C09G.filter_gate_write_e2e` — the WHOLE run of `writeable(); open Stdout; write_all(data); return` on a
    Filter whose Data stream is never read: the Stdout records stand inside the owed replies, then the epilogue;
    every `data`, no fuel hypothesis
 
@@ -2626,8 +2693,9 @@ end Fcgi.Headline
 **Not proved as theorems — carried by the differential run + oracle, or trusted.**
 * real wakers are not modelled at the poll level
 * Clauses 11–13 (`filter_gate_e2e`): the run AFTER the gate poll is covered only for `rest = open Stdout;
-  write_all(data); drop; return` with Data unread (Clause 15, `Props/C09Gate2.lean`); Clause 14
-  (`Props/C09Gate3.lean`) restates the gate theorem without the existential configuration; hypotheses:
+  write_all(data); drop; return` with Data unread (Clause 17, `Props/C09Gate2.lean`); Clauses 14–16
+  (`Props/C09Gate3.lean`) restate the gate theorem without the existential configuration
+  (`filter_gate_free`) resp. with the configuration pinned (`filter_gate_pinned`, `gate_taken`); hypotheses:
   canonical Filter wire within the buffer bound, `Ben t`, handler script `.writeable :: rest` with arbitrary
   `rest`
 
@@ -2914,8 +2982,55 @@ end
 section
 namespace Fcgi.C09G
 open Fcgi Fcgi.Req Fcgi.Str Fcgi.Async Fcgi.Run Fcgi.Spec Fcgi.E2E Fcgi.C07E Fcgi.C07U
-/-- the WHOLE run of `writeable(); open Stdout; write_all(data); return` on a Filter whose Data stream is never read: the Stdout records stand inside the owed replies, then the epilogue; every `data`, no fuel hypothesis  (= `Fcgi.C09G.filter_gate_write_e2e`, `Props/C09Gate2.lean`) -/
+/-- `filter_gate_e2e` exporting the configuration it quantifies over (`GOK g rest`, `g.recs`, `g.mc`, `g.b`, `g.hs0`, `g.more` pinned)  (= `Fcgi.C09G.filter_gate_pinned`, `Props/C09Gate3.lean`) -/
 def C09Clause15 : Prop :=
+  ∀ {p : Preamble} {recs : List Rec} {content : Bytes} {srecs : List Rec}
+    {content2 : Bytes} {drecs : List Rec}
+    {b mc : Nat} {rest : List HOp} {more : List (List HOp × Bool)} {t : Transport}
+    (hwf : WellFormedPreamble p recs) (hrole : p.role = 3)
+    (hpairs : ∀ q ∈ p.pairs, (NV.enc q).length ≤ alignedBufsize b)
+    (hnoise : NoiseFits (alignedBufsize b) recs)
+    (hs : StreamRecs p.id 5 content srecs) (hsn : NoiseFits (alignedBufsize b) srecs)
+    (hd : StreamRecs p.id 8 content2 drecs) (hdn : NoiseFits (alignedBufsize b) drecs)
+    (hin : t.input = serAll recs ++ (serAll srecs ++ serAll drecs)) (hben : Ben t) (hev : hsCount t.events = 0),
+    ∃ (g : E2E.Cfg) (k : Nat), GOK g rest ∧ g.p = p ∧ g.recs = recs ∧ g.mc = mc ∧ g.b = b ∧
+      g.R = srecs ∧ g.R2 = drecs ∧ g.L0 = t.wlog ∧ g.hs0 = 0 ∧ g.more = more ∧ k ≤ t.rd.length + t.wr.length ∧
+      (∀ j, j ≤ k → ∃ cj, runTask j (connS b mc t ((.writeable :: rest, true) :: more)) 0 none = (cj, "FUEL") ∧
+        SGate g rest cj) ∧
+      ∃ ck, runTask k (connS b mc t ((.writeable :: rest, true) :: more)) 0 none = (ck, "FUEL") ∧
+        GatePoll g rest (prePoll ck k none)
+
+theorem C09Clause15_holds : C09Clause15 := by
+  unfold C09Clause15
+  exact @filter_gate_pinned
+
+end Fcgi.C09G
+end
+
+section
+namespace Fcgi.C09G
+open Fcgi Fcgi.Req Fcgi.Str Fcgi.Async Fcgi.Run Fcgi.Spec Fcgi.E2E Fcgi.C07E Fcgi.C07U
+/-- … what `GateAt g` says for such a configuration: the bytes taken behind the preamble contain the complete Stdin stream  (= `Fcgi.C09G.gate_taken`, `Props/C09Gate3.lean`) -/
+def C09Clause16 : Prop :=
+  ∀ {g : E2E.Cfg} {rest : List HOp} (ok : GOK g rest) {r : AReq} {m : MutexSt} {t' : Transport}
+    (h : GateAt g r m t'),
+    r.writeable = true ∧
+    (∃ G, G ++ t'.input = serAll g.R ++ serAll g.R2 ∧ serAll g.R <+: G) ∧
+    ∃ O₁, t'.wlog = g.L0 ++ owedPreamble g.p g.mc g.recs ++ O₁ ∧
+      O₁ <+: owedStream g.p.id 5 g.mc g.R ++ owedStream g.p.id 8 g.mc g.R2
+
+theorem C09Clause16_holds : C09Clause16 := by
+  unfold C09Clause16
+  exact @gate_taken
+
+end Fcgi.C09G
+end
+
+section
+namespace Fcgi.C09G
+open Fcgi Fcgi.Req Fcgi.Str Fcgi.Async Fcgi.Run Fcgi.Spec Fcgi.E2E Fcgi.C07E Fcgi.C07U
+/-- the WHOLE run of `writeable(); open Stdout; write_all(data); return` on a Filter whose Data stream is never read: the Stdout records stand inside the owed replies, then the epilogue; every `data`, no fuel hypothesis  (= `Fcgi.C09G.filter_gate_write_e2e`, `Props/C09Gate2.lean`) -/
+def C09Clause17 : Prop :=
   ∀ {p : Preamble} {recs : List Rec} {content : Bytes} {srecs : List Rec}
     {content2 : Bytes} {drecs : List Rec} {data : Bytes}
     {b mc : Nat} {st : ExitStatus} {more : List (List HOp × Bool)} {t : Transport} {fuel : Nat}
@@ -2931,8 +3046,8 @@ def C09Clause15 : Prop :=
       runTask fuel (connS b mc t ((.writeable :: gateRest data st, true) :: more)) 0 none = (c', fin) ∧
       GateWriteOutcome p recs srecs drecs d₁ s₂ O₁ O₂ data b mc st more t c' fin
 
-theorem C09Clause15_holds : C09Clause15 := by
-  unfold C09Clause15
+theorem C09Clause17_holds : C09Clause17 := by
+  unfold C09Clause17
   exact @filter_gate_write_e2e
 
 end Fcgi.C09G
@@ -2955,8 +3070,10 @@ theorem C09_headline :
     Fcgi.C09G.C09Clause12 ∧
     Fcgi.C09G.C09Clause13 ∧
     Fcgi.C09G.C09Clause14 ∧
-    Fcgi.C09G.C09Clause15 :=
-  ⟨Fcgi.C09E.C09Clause1_holds, Fcgi.C09E.C09Clause2_holds, Fcgi.C09E.C09Clause3_holds, Fcgi.C09E.C09Clause4_holds, Fcgi.C09.C09Clause5_holds, Fcgi.C09E.C09Clause6_holds, Fcgi.C09E.C09Clause7_holds, Fcgi.C09.C09Clause8_holds, Fcgi.C09E.C09Clause9_holds, Fcgi.C09E.C09Clause10_holds, Fcgi.C09G.C09Clause11_holds, Fcgi.C09G.C09Clause12_holds, Fcgi.C09G.C09Clause13_holds, Fcgi.C09G.C09Clause14_holds, Fcgi.C09G.C09Clause15_holds⟩
+    Fcgi.C09G.C09Clause15 ∧
+    Fcgi.C09G.C09Clause16 ∧
+    Fcgi.C09G.C09Clause17 :=
+  ⟨Fcgi.C09E.C09Clause1_holds, Fcgi.C09E.C09Clause2_holds, Fcgi.C09E.C09Clause3_holds, Fcgi.C09E.C09Clause4_holds, Fcgi.C09.C09Clause5_holds, Fcgi.C09E.C09Clause6_holds, Fcgi.C09E.C09Clause7_holds, Fcgi.C09.C09Clause8_holds, Fcgi.C09E.C09Clause9_holds, Fcgi.C09E.C09Clause10_holds, Fcgi.C09G.C09Clause11_holds, Fcgi.C09G.C09Clause12_holds, Fcgi.C09G.C09Clause13_holds, Fcgi.C09G.C09Clause14_holds, Fcgi.C09G.C09Clause15_holds, Fcgi.C09G.C09Clause16_holds, Fcgi.C09G.C09Clause17_holds⟩
 end Fcgi.Headline
 
 
@@ -5212,10 +5329,10 @@ end Fcgi.Headline
 * set_stream(Some(non-input-stream type)) while a stream is active hits a debug assertion in
   cmp_input_streams (release builds return SequenceError): modelled as the panic it is in debug builds and
   treated as a rejection that changes nothing
-* Props/C18Held: the held-back first record of a later stream under NEW input — `held_under_new_input` (any
-  further parse calls with any input, any dest, any interleaving of consume_stream / compress /
-  consume_output keep returning exactly `stream=0, end=true, output=0`, deliver nothing, keep the held-back
-  header in place: `hel…
+* Props/C18Held: the held-back first record of a later stream under NEW input — `held_under_new_input` /
+  `held_every_call` (any further parse calls with any input, any dest, any interleaving of consume_stream /
+  compress / consume_output keep returning exactly `stream=0, end=true, output=0`, deliver nothing, keep the
+  held-back h…
 
 **Not proved as theorems — carried by the differential run + oracle, or trusted.**
 * `set_stream(Some(non-input type))` hits a debug assertion: modelled as the panic it is in debug builds
